@@ -19,9 +19,13 @@ def main() -> int:
     base = "/dev/shm" if os.path.isdir("/dev/shm") else "/var/tmp"
     work = tempfile.mkdtemp(prefix="verif-mut-", dir=base)
     try:
-        shutil.copytree("/repo/src", os.path.join(work, "src"))
-        for extra in ("pyproject.toml",):
-            shutil.copy(os.path.join("/repo", extra), work)
+        rev = os.environ.get("VERIF_PATCH_BASE_REV")
+        if rev:     # a patch written for an earlier revision (its context was rewritten by a later fix)
+            assert subprocess.run(f"git -C /repo archive {rev} src pyproject.toml | tar -x -C {work}", shell=True).returncode == 0
+        else:
+            shutil.copytree("/repo/src", os.path.join(work, "src"))
+            for extra in ("pyproject.toml",):
+                shutil.copy(os.path.join("/repo", extra), work)
         p = subprocess.run(["patch", "-p1", "-s", "-d", work, "-i", os.path.abspath(patch)], capture_output=True)
         if p.returncode != 0:
             print("PATCH DOES NOT APPLY:", p.stdout.decode()[-400:], p.stderr.decode()[-400:])
